@@ -88,8 +88,11 @@ PROPS = {
         units=["pending"],
         undecided=["real atomics / locks are sequentialised (in production ack, replicated and the counters are all touched under the outer pending_opps write lock)",
                    "end-to-end observation through the cluster (rp / ack handlers in the dispatcher, replication thread)"],
-        assumptions=["call-site condition of register_pending_opp / replicated: an operation is handed to a node at most once while that node still owes its "
-                     "acknowledgement (replicate_message_to_secoundary iterates a map keyed by node name); it is a precondition, not proved at the call site",
+        assumptions=["call-site condition of register_pending_opp: an operation is handed to a node at most once while that node still owes its acknowledgement - now PROVED at "
+                     "its two call sites (replicate_message_to_all / replicate_message_to_secoundary, which are verified to register an operation for exactly the members "
+                     "they hand it to: every other member, resp. every other member marked Secoundary, never this node itself); what remains assumed there: an operation id "
+                     "is fanned out once (ids come from next_op_log_id), iteration over the member table visits every entry once (R8 shim), and replicate_if_some - the "
+                     "send over the member's link - is a trusted external that touches no state of this node",
                      "HashMap::get_mut has a hand-written trusted specification (no vstd spec)",
                      "AtomicUsize::fetch_add is modelled as a wrapping add on a plain usize"],
     ),
@@ -122,7 +125,8 @@ PROPS = {
         units=["oplog"],
         kani=[K_CODEC],
         undecided=["rotation: Oplog::get_log_file_append_mode / remove_old_db_files (rename, directory listing, creation times) - 'rotation keeps the newest records and never drops a "
-                   "record within the configured size' is NOT decided",
+                   "record within the configured size' is NOT decided by contract (Oplog::try_write_op_log IS verified to leave the accepted record as the last record of the live "
+                   "stream also when the write rolled the file over; the bounded family logroll writes through two rotations on the real disk code)",
                    "that the directory listing really is sorted by creation time and that the files are in time order (get_op_log_entries_by_creation_date is a trusted external; "
                    "files_in_order is the hypothesis of lemma_most_recent_wins)",
                    "termination of the search loop is not proved (exec_allows_no_decreases_clause)",
@@ -135,7 +139,7 @@ PROPS = {
                      "arguments (the same function names the file when it is read)"],
     ),
     "C13": dict(
-        units=["consensus", "store", "listing"],
+        units=["consensus", "store", "listing", "snapshot"],
         undecided=["order across several queued writes beyond one step; arbiter disconnects (unwatch-all leaves an empty watcher list under $conflicts)",
                    "primary/secondary forwarding of resolve, replicas holding the resolved value",
                    "that the notice key (format! of key and op id) sorts in the order the conflicts were recorded; a conflicted key whose name ends with `*` or contains "
